@@ -17,9 +17,13 @@ for b in blocks:
     if not m:
         continue
     pid, k = m.group(1), m.group(2)
-    src = '/tmp/sa/%s/_out' % pid
+    sm = re.search(r'^src: (\S+)/m(\d)$', b, flags=re.M)
+    if sm:
+        src, n = sm.group(1), sm.group(2)
+    else:
+        src, n = '/tmp/sa/%s/_out' % pid, k
     try:
-        meta = json.load(open('%s/m%s.json' % (src, k)))
+        meta = json.load(open('%s/m%s.json' % (src, n)))
     except Exception:
         continue
     tests = re.search(r'tests-with-change: (.*)', b)
@@ -36,8 +40,8 @@ for b in blocks:
     sid = '%s-m%s' % (pid, k)
     dst = os.path.join('/verif/seeded', sid)
     os.makedirs(dst, exist_ok=True)
-    shutil.copy('%s/m%s.diff' % (src, k), dst + '/patch.diff')
-    shutil.copy('%s/m%s_demo.py' % (src, k), dst + '/demo.py')
+    shutil.copy('%s/m%s.diff' % (src, n), dst + '/patch.diff')
+    shutil.copy('%s/m%s_demo.py' % (src, n), dst + '/demo.py')
     caught = [c for c, r, d in checks if r == 'CAUGHT']
     missed = [c for c, r, d in checks if r != 'CAUGHT']
     first = next((d for c, r, d in checks if r == 'CAUGHT'), '')
@@ -47,7 +51,8 @@ for b in blocks:
         'summary': meta.get('summary'), 'needs': meta.get('needs'),
         'files': meta.get('files'),
         'origin': 'written by an independent sub-agent that saw only the '
-                  'property text and a scratch worktree of /repo',
+                  'property text and a scratch worktree of /repo (round %d)'
+                  % (1 if int(k) <= 3 else 2),
         'confirmed': {
             'repo_tests_with_change': tests.group(1),
             'demo_exit_with_change': int(dw.group(1)),
